@@ -34,6 +34,12 @@ CHECKS = {
    note='Trusted: ContextBase.collect_functions is the only funnel between contexts and choose_overload (S-order seam sits there); natural set order is a function of FunctionDefinition.__hash__ (S-hash seam) and insertion order.',
    technique='deterministic simulation with fault enumeration: simulator-owned enumeration order / identity hash of overload sets, all permutations per seeded family, metamorphic same-outcome oracle, shrinking + replay',
    quick_timeout=900, thorough_timeout=21600),
+ 'C17': dict(
+   category='exploration', design_ref='DESIGN.md 3.6',
+   text='Seeded operation histories (set, delete, child, multi, linked, register, exclusive register, delete_function, plus operations that legitimately fail: deleting missing variables through fan-out contexts, invalid methods, child creation on linked contexts over non-plain contexts) over forests of <=12 contexts mixing the three classes; after EVERY operation all contexts x {$, $1, empty, a, $a, b} x {f, g, f_, h, nosuch} are probed (ctx[name], get_data with default / own layer only, in, keys, collect_functions, get_functions, spec in ctx) and compared with a flattened-layers reference model written from the statement. Sampling, not proof.',
+   note='Trusted: the ~80-line reference model (layers = merge for multi, concatenation for linked; writes go to the first plain context of the own layer). Two narrow relaxations (partial delete through fan-out contexts; exclusivity after delete_function) adopt observed state for exactly the touched name.',
+   technique='deterministic simulation of host operation histories with injected failing operations, step-by-step comparison against an executable flattened-layers reference model, history shrinking + replay',
+   quick_timeout=900, thorough_timeout=21600),
 }
 
 
